@@ -208,7 +208,11 @@ func distinctField(t *rm.Type, f *rm.Field, n *int) *rm.Value {
 		*n++
 		return rm.Text(append([]byte("dyn"), dtext(*n, 4)...))
 	case "list":
-		return rm.List(distinctField(t, f.Elem, n), distinctField(t, f.Elem, n))
+		first, second := distinctField(t, f.Elem, n), distinctField(t, f.Elem, n)
+		if f.Elem.Kind == "fixtext" && len(second.Text) > 1 {
+			second.Text = second.Text[:1] // a shorter element after a longer one
+		}
+		return rm.List(first, second)
 	case "struct":
 		return distinct(t.Proto.Type(f.Type), n)
 	case "dyn":
@@ -506,9 +510,18 @@ func lenTextAlphabet(f *rm.Field, o Opts, leaf int) []member {
 func elemValue(e *rm.Field, leaf, j int) *rm.Value {
 	switch e.Kind {
 	case "fixtext":
+		// element lengths shrink along the list (W-1, 1, 0, W-1, ...): state carried from one element to the next shows
 		l := e.Width - 1
 		if l < 1 {
 			l = e.Width
+		}
+		switch j % 3 {
+		case 1:
+			if l > 1 {
+				l = 1
+			}
+		case 2:
+			l = 0
 		}
 		return rm.Text(dtext(leaf+j*5, l))
 	case "lentext":
